@@ -166,4 +166,26 @@ def extra_checks(tier, seed):
     import c18
     name, ok, detail, rep = c18.async_flat_reentrant_stream(tier, seed + 500)
     out.append(('unqueued_reentrant_order_asyncio', ok, detail, rep))
+    # candidates created by add_ordered_transitions (per-position conditions / unless / before / after / prepare
+    # lists, loop and loop_includes_initial, any subset / order of the states): "for each candidate transition of the
+    # current state in definition order its prepare callbacks and its conditions followed by its unless checks"
+    n3 = 300 if tier == 'quick' else 8000
+    cases = []
+    for i in range(n3):
+        rng = random.Random('C01o-%d-%d' % (seed, i))
+        c = flat.gen_ordered_case(rng)
+        c['cls'] = ['Machine', 'LockedMachine', 'HierarchicalMachine', 'GraphMachine', 'HierarchicalGraphMachine'][i % 5]
+        cases.append(c)
+    mo = F.run_model(0, [flat.enc_case(c) for c in cases])
+    io = F.run_impl('flat', 'impl_flat', cases)
+    bad = [(c, m, i) for c, m, i in zip(cases, mo, io) if m != i]
+    closing = sum(1 for c, m in zip(cases, mo) if c['ordered']['loop'] and isinstance(m, list) and m[0] == 1 and
+                  any(st[1] == [0, True] for st in m[1]))
+    detail = dict(cases=len(cases), disagreements=len(bad), with_loop_and_an_executed_transition=closing)
+    if bad:
+        c, m, i = bad[0]
+        out.append(('ordered_transitions', False, detail,
+                    dict(kind='counterexample', stream='add_ordered_transitions', case=c, model_obs=m, impl_obs=i)))
+    else:
+        out.append(('ordered_transitions', True, detail, {}))
     return out
